@@ -453,7 +453,7 @@ def rule_wfall(ctx) -> None:
                       "the delta header is written only where _find_snapshot_file(..'.full') returned a path",
                       "a delta header can be written although no baseline file was found (reader cannot reconstruct)")
             # (b) the baseline was read and diffed against the payload
-            readn = [x for x, cc in find_calls(ctx, fn, lambda c2, nm: nm.endswith(":_read_header_payload"))]
+            readn = [x for x, cc in find_calls(ctx, fn, lambda c2, nm: nm.endswith(":_read_header_payload") or nm.endswith(":_read_baseline_payload"))]
             ctx.check(any(cfg.dominates(x, n) for x in readn), "C07.WFALL", key + "/baseline-read", fn.loc(c),
                       "the baseline payload is read before the delta is written", "delta written without reading the baseline")
             body = c.args[2] if len(c.args) > 2 else None
@@ -624,6 +624,51 @@ def rule_pure(ctx) -> None:
               + hazards.controls(ctx, "clematis.engine.health", ["memo"]))
 
 
+def rule_usable_baseline(ctx) -> None:
+    """"baseline present / missing / corrupt": a baseline file that exists but is not a readable full snapshot (truncated after
+    its header, not JSON, body not an object) must be treated like a missing one - never diffed against, never patched.  Every
+    first argument of apply_delta / compute_delta in the reader and the writer comes from the one baseline reader, is used
+    only where it is not None, and that reader returns a payload only for a two-part file whose header says mode full and
+    whose body is an object."""
+    br = ctx.prog.funcs.get(SNAP + ":_read_baseline_payload")
+    if br is None:
+        ctx.violation("C07.STATE", f"{SNAP}/baseline-reader", "clematis/engine/snapshot.py", "there is no single baseline reader that rejects unusable baseline files: a truncated or corrupt baseline is "
+                      "parsed by the generic header/payload reader, whose single-JSON fallback hands the HEADER back as the payload")
+        return
+    ctx.analysed_funcs.add(br.qual)
+    tests = " ".join(src(x.test) for x in walk_no_defs(br.node) if isinstance(x, ast.If)).replace("not ", "")
+    guarded_read = any(isinstance(x, ast.Try) and any(isinstance(c, ast.Call) and call_tail(c) == "_read_header_payload" for b in x.body for c in ast.walk(b)) for x in walk_no_defs(br.node))
+    # roles: (header, payload) = _read_header_payload(path)
+    hv = pv = None
+    for x in walk_no_defs(br.node):
+        if isinstance(x, ast.Assign) and isinstance(x.value, ast.Call) and call_tail(x.value) == "_read_header_payload" and isinstance(x.targets[0], ast.Tuple) and len(x.targets[0].elts) == 2:
+            hv, pv = src(x.targets[0].elts[0]), src(x.targets[0].elts[1])
+    ok_checks = guarded_read and hv is not None and f"isinstance({hv}, dict)" in tests and "'full'" in tests and f"{hv}.get('mode')" in tests and f"isinstance({pv}, dict)" in tests
+    ctx.check(ok_checks, "C07.STATE", f"{br.qual}/accepts-only-full-object-bodies", br.loc(),
+              "the baseline reader catches parse errors and returns a payload only for header.mode == 'full' with an object body",
+              "the baseline reader does not reject every unusable file (parse error / missing header / mode other than full / non-object body)")
+    n_uses = 0
+    for q in (SNAP + ":read_snapshot", SNAP + ":write_snapshot_auto"):
+        fn = ctx.func(q)
+        cfg = ctx.cfg(fn)
+        rd = ctx.rd(fn)
+        for n in cfg.nodes:
+            for c in node_calls(n):
+                if call_tail(c) not in ("apply_delta", "compute_delta") or not c.args:
+                    continue
+                n_uses += 1
+                a0 = c.args[0]
+                nm = a0.id if isinstance(a0, ast.Name) else None
+                ds = [d for d in rd.reaching(nm, n) if d.kind != "mutate"] if nm else []
+                from_reader = bool(ds) and all(d.value is not None and any(isinstance(z, ast.Call) and call_tail(z) == "_read_baseline_payload" for z in ast.walk(d.value)) for d in ds)
+                notnone = any((pol and t == f"{nm} is not None") or ((not pol) and t == f"{nm} is None") for t, pol in cfg.facts(n)) if nm else False
+                ctx.check(from_reader and notnone, "C07.STATE", ctx.okey(f"{fn.qual}/baseline-usable-before-use"), fn.loc(c),
+                          f"`{src(a0)}` comes from the baseline reader and is used only where it is not None",
+                          f"`{src(c)[:60]}` uses a baseline that did not pass the usability check (from _read_baseline_payload, and not None): a truncated or corrupt baseline is diffed against / "
+                          "patched, giving a wrongly reconstructed state or an unreadable delta instead of the full-snapshot fallback")
+    ctx.floor("C07.STATE", "uses of a baseline payload (apply_delta / compute_delta)", n_uses, 3)
+
+
 def rule_exact_leaves(ctx) -> None:
     """"yields current exactly": whether a leaf changed is decided on its JSON value, not with Python's == / != alone - those
     equate 0 / False, 1 / 1.0 / True, 0.0 / -0.0 and [1] / [True], so the change would get no entry and the rebuilt payload keeps
@@ -656,6 +701,7 @@ def rule_exact_leaves(ctx) -> None:
 
 def run(ctx) -> None:
     rule_exact_leaves(ctx)
+    rule_usable_baseline(ctx)
     rule_pure(ctx)
     rule_codec(ctx)
     rule_framing(ctx)
